@@ -22,9 +22,9 @@ BUDGET = {
     "C01": (3000, 200000), "C02": (3000, 200000), "C03": (3000, 200000), "C04": (3000, 200000),
     "C05": (3000, 150000), "C06": (3000, 150000), "C07": (2000, 100000),
     "C08": (4000, 200000), "C09": (4000, 200000),
-    "C10": (2000, 100000), "C11": (2000, 100000), "C13": (1500, 60000),
-    "C16": (2000, 100000), "C17": (2000, 100000), "C18": (2000, 100000),
-    "C19": (2000, 100000), "C20": (2000, 100000),
+    "C10": (3000, 100000), "C11": (5000, 100000), "C13": (2000, 60000),
+    "C16": (3000, 100000), "C17": (4000, 100000), "C18": (3000, 100000),
+    "C19": (3000, 100000), "C20": (3000, 100000),
 }
 # extra runs (a fraction of the budget, run indices continue after the main ones) from another
 # profile whose histories exercise the same property from a different side
